@@ -3,9 +3,23 @@ against PewModel/Export.lean.
 
 Values travel as bit tokens (core.tok): the text part compares finite values, zeros (signed) and
 infinities bit-exactly and every NaN as one canonical token (the text form of a NaN carries no
-payload); the VTK part compares raw bit patterns including NaN payloads.  The VTK file written by
-pewlib is read by the small independent reader `read_vti` below (header XML + appended raw blocks);
-pewlib has no VTK reader."""
+payload); the VTK part compares raw bit patterns including NaN payloads.
+
+Text.  The Lean side never parses or prints a number: `fmt` is the identity on the token strings Python
+produced ('%.18g' % x for saved files), `conv` is applied by the harness (`pyfloat`: Python's float, NaN
+when it raises) to the field strings the Lean loader model (`loadFields`) cuts out of a file.  For a
+saved image the driver gets the characters pewlib wrote: model = the loader model on those characters,
+spec = the image, impl = what pewlib's load returned; the Lean rendering `saveText` of the same tokens is
+compared with the file byte for byte (equal: the round-trip theorem speaks about this very file; unequal:
+hypothesis-excluded, the comparison through the loader model remains).  Files other tools might write
+are described line by line (`foreignFile`, class predicate `foreignOk` decided by the driver) or given as
+raw text; both pewlib and the Lean loader model read them, as written and with ';'/tab replaced by ','.
+
+VTK.  The file written by pewlib is read by the small independent reader `read_vti` below (header XML via
+ElementTree + appended raw blocks; pewlib has no VTK reader): impl.  model = the Lean reader `vtkParse` on
+the Lean rendering `vtkRender` plus the blocks found at the declared offsets, spec = `vtkMetaSpec` and
+`vtkBlockSpec`.  The Lean reader is also run on the real header text, and the whole Lean rendering
+(header text, appended words, closing text) is compared with the real file byte for byte."""
 import math
 import re
 import struct
@@ -535,21 +549,52 @@ class C16(Prop):
     anchored = ["src/pewlib/io/textimage.py", "src/pewlib/io/vtk.py"]
     cases = {"quick": 800, "thorough": 12000}
     rule = ("text: images from 1x1 (single rows and columns forced) with special values (denormals, +-max, -0.0, NaN, "
-            "+-inf, arbitrary bit patterns), saved and loaded, plus harness-written files with ',', ';', tab and mixed "
-            "delimiters, among them long files (to beyond 1, 2, 4, 8, 16, 64, 128 KiB) whose second style of separator first "
-            "appears late - commas first and ';'/tab/mixture/one odd separator later, and the reverse; saved arrays also "
-            "Fortran-ordered, transposed, strided, reversed and cropped views; VTK: 2-D and 3-D structured float64 images "
-            "with 1..4 elements whose names need XML escaping, arbitrary spacings, element fields packed in name order, "
-            "multi-field selections of a record laid out in another order (with other members between), dtypes with "
-            "explicit offsets and padding, in every memory order above, read back by an independent VTI reader; "
-            "non-trivial = boundary shape, special value, escaped name, several elements, mixed delimiters or a "
-            "non-default memory layout; distinct by canonical case hash")
-    trusted = ["'%.18g' printing followed by genfromtxt's float conversion is the identity on finite float64, zeros and "
-               "infinities and maps NaN to NaN (the model's opaque fmt/parse with parse (fmt x) = x)",
+            "+-inf, arbitrary bit patterns), saved (with and without a header, also multi-line and data-like ones) and "
+            "loaded; the Lean loader model reads the very characters pewlib wrote (number tokens opaque, converted by "
+            "Python's float) and the Lean rendering of the file is compared with them byte for byte; harness-written "
+            "files with ',', ';', tab and mixed delimiters, among them long files (to beyond 1, 2, 4, 8, 16, 64, 128 KiB) "
+            "whose second style of separator first appears late; files of the class 'delimiter variant of an image' "
+            "written line by line (indentation, padding around fields, comments, blank lines, '\\n' / '\\r\\n' / lone "
+            "'\\r' terminators, no final newline, numbers printed in other forms) and files pushed out of the class "
+            "(trailing delimiters, empty and unparsable fields, ragged rows, nothing but comments) plus arbitrary short "
+            "texts, each read by pewlib and by the Lean loader model, as written and with ';'/tab replaced by ','; saved "
+            "arrays also Fortran-ordered, transposed, strided, reversed and cropped views; VTK: 2-D and 3-D structured "
+            "float64 images with 1..4 elements whose names need XML escaping, integer and float spacings, element fields "
+            "packed in name order, multi-field selections of a record laid out in another order (with other members "
+            "between), dtypes with explicit offsets and padding, in every memory order above; the file is read back by "
+            "an independent VTI reader (every header field, origin and spacing included, against the Lean "
+            "specification), its header text by the Lean reader, and the whole file is compared byte for byte with "
+            "the Lean rendering; non-trivial = boundary shape, special value, escaped name, several elements, mixed "
+            "delimiters, a foreign-file feature or a non-default memory layout; distinct by canonical case hash")
+    trusted = ["'%.18g' printing followed by Python's float is the identity on finite float64, zeros and infinities and maps "
+               "NaN to NaN, and float ignores spaces around a number (the model's opaque fmt/conv: `Clean.roundtrip`, "
+               "the padding hypothesis of `foreign_file_loads`); exercised on every value (`printer_inverted`)",
+               "genfromtxt's loose converter is float with a NaN fallback (harness `pyfloat`, the model's total `conv`)",
+               "savetxt and path.open('r') use the same text encoding, '\\n' is written as '\\n' (POSIX)",
                "xml.etree.ElementTree decodes the five predefined entities (the model's `unescape`)",
                "the independent reader `read_vti` in harness/c16.py"]
     assumptions = ["NaN payload and sign are not part of 'NaN preserved' in the text form",
-                   "Spacing is checked to parse as three floats within 1e-6 relative of the requested spacing, no more"]
+                   "Spacing is checked to parse as three floats within 1e-6 relative of the requested spacing, no more",
+                   "which element the VTK header names as active scalar is not compared (it has to be one of them)",
+                   "the bytes of the saved text file are no observation of the property: a file that differs from the "
+                   "model's rendering only moves the case out of the theorem's reach (hypothesis_excluded), the "
+                   "loader model then reads that file",
+                   "warnings and exception classes of the loader on files outside the property's class are not compared",
+                   "headers holding a carriage return and element names holding control or white-space characters "
+                   "other than a space are not generated (see notes/D16.md: pewlib does not round-trip them)"]
+
+    def known(self, case, out):
+        """inputs on which pewlib is known not to meet the property text (ids take effect only once known_findings.json
+        lists them)"""
+        if case.get("kind") == "text" and "\r" in (case.get("header") or ""):
+            return "C16-header-carriage-return"
+        if case.get("kind") == "vtk":
+            bad = [ch for n in case["names"] for ch in n if ch in "\t\r\n" or (ord(ch) < 32)]
+            if any(ch in "\t\r\n" for ch in bad) and all(ch in "\t\r\n" for ch in bad):
+                return "C16-name-white-space"
+            if bad:
+                return "C16-name-control-character"
+        return None
 
     # ------------------------------------------------------------------ generation
     def generate(self, rng, tier):
@@ -644,6 +689,14 @@ class C16(Prop):
         yield {"kind": "foreign", "lines": [row(["1", "2"], ","), row(["3"], "")]}  # ragged
         yield {"kind": "foreign", "lines": [skip(comment="nothing"), skip()]}
         yield {"kind": "foreign", "lines": []}
+        # witnesses of registered known findings (run only once known_findings.json lists them)
+        registered = {k["id"] for k in core.load_known() if k.get("property") == "C16" and k.get("kind") == "known"}
+        if "C16-header-carriage-return" in registered:
+            yield {"kind": "text", "rows": 2, "cols": 1, "vals": [tok(1.0), tok(2.5)], "header": "a\r5"}
+        if "C16-name-white-space" in registered:
+            yield {"kind": "vtk", "shape": [1, 1], "names": ["a\tb"], "vals": [[tok(1.0)]], "spacing": [1, 1, 1]}
+        if "C16-name-control-character" in registered:
+            yield {"kind": "vtk", "shape": [1, 1], "names": ["a\x01b"], "vals": [[tok(1.0)]], "spacing": [1, 1, 1]}
         # vtk: every small shape, one and two elements, names with each special character
         for shape in ([1, 1], [1, 4], [4, 1], [2, 3], [3, 2], [1, 1, 1], [1, 1, 3], [2, 3, 4], [3, 1, 2], [1, 3, 2]):
             size = int(np.prod(shape))
